@@ -50,6 +50,12 @@ def m_ref(ctx, case):
         hx = dlon / 2 - 2 * slon
         rlat_ref = max(-90.0, min(90.0, lat + fy * hy))
         rlon_ref = cprgen.wrap180(lon + fx * hx)
+        if case.get("intref"):
+            # receivers are commonly configured with whole degrees: Python ints, when they still lie inside the box
+            ci, cj = int(round(rlat_ref)), int(round(rlon_ref))
+            if abs(ci - lat) <= hy and cpr.lon_diff(cj, lon) <= hx and -90 <= ci <= 90:
+                rlat_ref, rlon_ref = ci, (cj if -180 <= cj < 180 else cj - 360 if cj >= 180 else cj + 360)
+                ctx.hit("int_reference")
         if (rlat_ref > 0) != (lat > 0):
             ctx.hit("ref_across_equator")
         if abs(rlon_ref - lon) > 180:
@@ -111,7 +117,7 @@ def mkcase(rng, lat, lon, i=None, sfc=None, offs=None):
             "tc": rng.choice((5, 6, 7, 8)) if sfc else rng.choice(list(range(9, 19)) + [20, 21, 22]),
             "mov": rng.randrange(128), "trk": rng.randrange(256), "ss": rng.randrange(4), "alt": rng.fill(12),
             "tbit": rng.randrange(2), "df": rng.choice((17, 17, 18)), "ca": rng.randrange(8), "addr": rng.fill(24),
-            "offs": offs, "lower": rng.random() < 0.1}
+            "offs": offs, "lower": rng.random() < 0.1, "intref": rng.random() < 0.1}
 
 
 def cases(ctx):
